@@ -901,6 +901,9 @@ def external(I, e, name, spec):
     outcome = I.path.choose(1 + len(rz), 'ext:%s' % short) if rz else 0
     rec = {'name': short, 'args': args, 'kwargs': kwargs, 'raised': outcome != 0}
     tr.append(rec)
+    if spec.get('snapshot'):
+        # what the callee can observe of the caller's state at the moment of the call
+        rec['snapshot'] = {x: I.eval(ast.parse(x, mode='eval').body) for x in spec['snapshot']}
     for nm in spec.get('havoc', []):
         # an object the callee may mutate: forget what is known about it
         I.env[nm] = fresh(parse_ty(spec.get('havoc_type', 'map[str,any]')), 'havoc_' + nm)
